@@ -122,8 +122,22 @@ func c12Life(c *mon.Ctx, r *mon.Rand, force string) {
 	}
 	nCalls := r.Range(50, 3000)
 	concAlloc := r.Bool()
+	// every tenth lifetime allocates more distinct tag sets than the reporter's
+	// pools hold (4096 pooled tag slices) and reports each of them once more at
+	// the end, the earliest ones included
+	manyTagSets := r.Chance(1, 10) && force == ""
+	if manyTagSets {
+		n := r.Range(4200, 5000)
+		idents = idents[:0]
+		for i := 0; i < n; i++ {
+			idents = append(idents, m3Ident{Kind: "counter", Name: "w", Tags: map[string]string{"shard": "s" + strconv.Itoa(i), "k": genBytes(r, 20)}})
+		}
+		nIdents = n
+		concAlloc = false
+		c.Class("lifetimes-with-more-than-4096-distinct-tag-sets", 1)
+	}
 	desc := map[string]interface{}{"protocol": protoName(proto), "queue": opts.MaxQueueSize, "max_packet": opts.MaxPacketSizeBytes, "common_tags": nCommon, "include_host": opts.IncludeHost, "internal_tags": len(opts.InternalTags),
-		"traffic": traffic, "concurrent_allocation": concAlloc, "identities": nIdents, "calls": nCalls, "bucket_tag_names": fmt.Sprintf("%q/%q", opts.HistogramBucketIDName, opts.HistogramBucketName)}
+		"traffic": traffic, "more_than_4096_tag_sets": manyTagSets, "concurrent_allocation": concAlloc, "identities": nIdents, "calls": nCalls, "bucket_tag_names": fmt.Sprintf("%q/%q", opts.HistogramBucketIDName, opts.HistogramBucketName)}
 	c.LogCase(fmt.Sprint(desc))
 	stopWatch := c.Watchdog(300*time.Second, "m3-call-or-close-does-not-return", desc)
 	defer stopWatch()
@@ -227,6 +241,11 @@ func c12Life(c *mon.Ctx, r *mon.Rand, force string) {
 				continue
 			}
 			calls = append(calls, hs[r.Intn(len(hs))].report(r, 0, i))
+		}
+		if manyTagSets {
+			for k := range hs {
+				calls = append(calls, hs[k].report(r, 0, nCalls+k))
+			}
 		}
 	})
 	env.Rep.Close()
